@@ -12,6 +12,7 @@ import errno
 import queue
 import selectors as _real_selectors
 import socket
+import select as _real_select_module
 import threading
 import types
 
@@ -86,6 +87,8 @@ class MemSocket:
             if self.recv_hook is not None:
                 k = max(1, min(k, self.recv_hook(self, n, len(self.buf))))
             data = bytes(self.buf[:k])
+            if flags & socket.MSG_PEEK:
+                return data          # looked at, not consumed
             del self.buf[:k]
             self.bytes_read += k
             return data
@@ -325,6 +328,28 @@ class MemSelector:
     order_choice = True
 
 
+class SelectModuleShim(types.ModuleType):
+    """stands in for the 'select' module in socketutil: readiness of in-memory sockets, answered at once (timeout 0 semantics; a
+    longer timeout is a scheduling point and then answered)"""
+
+    def __init__(self):
+        super().__init__("select_shim")
+
+    def select(self, rlist, wlist, xlist, timeout=None):
+        s = S.Scheduler.current
+        if s is not None and not s.aborting and s.me() is not None:
+            s.point("select.select")
+        raw = [getattr(x, "sock", x) for x in rlist]
+        if not all(isinstance(x, (MemSocket, MemListener)) for x in raw + [getattr(x, "sock", x) for x in wlist]):
+            return _real_select_module.select(rlist, wlist, xlist, timeout)
+        r = [x for x, rx in zip(rlist, raw) if (rx.closed or rx.readable())]
+        w = [x for x in wlist if not getattr(x, "sock", x).closed]
+        return r, w, []
+
+    def __getattr__(self, name):
+        return getattr(_real_select_module, name)
+
+
 class SelectorsShim(types.ModuleType):
     def __init__(self):
         super().__init__("selectors_shim")
@@ -407,6 +432,8 @@ class MemNet:
         if self.installed:
             return
         self.installed = (socketutil.create_socket, svr_threads.selectors, svr_multiplex.selectors)
+        self._real_select = socketutil.select
+        socketutil.select = SelectModuleShim()
         socketutil.create_socket = self.create_socket
         shim = SelectorsShim()
         svr_threads.selectors = shim
@@ -416,6 +443,7 @@ class MemNet:
         from Pyro5 import socketutil, svr_threads, svr_multiplex
         if self.installed:
             socketutil.create_socket, svr_threads.selectors, svr_multiplex.selectors = self.installed
+            socketutil.select = self._real_select
             self.installed = None
         if self.server_thread is not None:
             self.server_thread.stop()
